@@ -72,9 +72,40 @@ func checkC04(c *Ctx, r *Report) {
 	connOwn.checkAcquireErrorExits(r2, "(*p2p/transport/webtransport.transport).dial", []string{"(*p2p/transport/quicreuse.ConnManager).DialQUIC"}, 0, false)
 	connOwn.checkAcquireErrorExits(r2, "(*p2p/protocol/circuitv2/client.Client).dialAndUpgrade", []string{"(*p2p/protocol/circuitv2/client.Client).dial"}, 0, true)
 	connOwn.checkParamErrorExits(r2, "p2p/transport/tcpreuse.identifyConnType", "c", true)
+	// the QUIC listener owns the wrapped connection (which holds the connection scope) from wrapConn on: every way
+	// round the accept loop and out of it closes it through the wrapper, returns it or hands it on
+	if f := r2.need("(*p2p/transport/quic.listener).Accept"); f != nil {
+		wraps := callsIn(f, "(*p2p/transport/quic.listener).wrapConn")
+		r2.Check(len(wraps) == 1, "(*p2p/transport/quic.listener).Accept: one wrapConn", f.Pos(), 1, "", "", "")
+		qOwn := newOwn(c, ownSpec{what: "wrapped connection", relNames: []string{"Close", "CloseWithError", "closeWithError"},
+			borrows: []string{"(core/connmgr.ConnectionGater).InterceptAccept", "(core/connmgr.ConnectionGater).InterceptSecured", "(core/connmgr.ConnectionGater).InterceptUpgraded"}})
+		for _, w := range wraps {
+			qOwn.checkAcquire(r2, f, w, 0)
+		}
+	}
 
 	// ---- R3 ---------------------------------------------------------------
 	r3 := r.Rule("C04-R3", "E2/E1", 6, "streams are reset on every failing / non-dispatching exit of the functions that hold them")
+	// the goroutine that runs the handler of an inbound stream tells the stream when it is done, on every exit past
+	// a successful addStream: closeAndRemoveStream leaves the removal (and scope.Done) to it while it is running
+	{
+		n := 0
+		for _, f := range c.FnsOfPkg(swarmP) {
+			if fnKey(c.PinnedRoot(f)) != "(*"+swarmP+".Conn).start" {
+				continue
+			}
+			addK := "(*" + swarmP + ".Conn).addStream"
+			for _, add := range findInstrsIn(f, callPred(addK)) {
+				n++
+				w, k := (&Cut{Fn: f, From: []ssa.Instruction{add}, Target: func(in ssa.Instruction) bool { _, ok := in.(*ssa.Return); return ok },
+					Sep:     callPred("(*" + swarmP + ".Stream).completeAcceptStreamGoroutine"),
+					EdgeCut: edgeNil(isCallResult(1, addK), false)}).Run(c)
+				r3.Check(w == "", fnKey(f)+": every exit past a successful addStream passes completeAcceptStreamGoroutine", instrPos(add), k+1, "",
+					"a stream closed while (or after) its handler ran is never removed from the connection: its scope is never released", w)
+			}
+		}
+		r3.Check(n >= 1, "Conn.start: inbound addStream site", token.NoPos, n, "", "", "")
+	}
 	strOwn := newOwn(c, ownSpec{what: "stream", relNames: []string{"Reset", "ResetWithError", "Close"}, listedTransfersOnly: true})
 	for _, k := range []string{"(*p2p/host/basic.BasicHost).newStreamHandler", "(*p2p/host/blank.BlankHost).newStreamHandler"} {
 		if f := r3.need(k); f != nil {
@@ -150,14 +181,14 @@ func checkC04(c *Ctx, r *Report) {
 	var doneFns []*ssa.Function
 	for _, f := range c.FnsOfPkg(swarmP) {
 		root := fnKey(c.PinnedRoot(f))
-		for _, in := range findInstrs(f, func(in ssa.Instruction) bool { return isRefs(in, "Add") }) {
+		for _, in := range findInstrsIn(f, func(in ssa.Instruction) bool { return isRefs(in, "Add") }) {
 			k, ok := constInt(in.(ssa.CallInstruction).Common().Args[1])
 			if !ok {
 				k = -1
 			}
 			gotAdd[root] = append(gotAdd[root], k)
 		}
-		if n := len(findInstrs(f, func(in ssa.Instruction) bool { return isRefs(in, "Done") })); n > 0 {
+		if n := len(findInstrsIn(f, func(in ssa.Instruction) bool { return isRefs(in, "Done") })); n > 0 {
 			gotDone[root] += n
 			doneFns = append(doneFns, f)
 		}
